@@ -138,6 +138,59 @@ def operation_problem(oi: int, snake: bool) -> str:
     return ""
 
 
+OP_PAIRS = [("getUser", "get_user"), ("GetUser", "getUser"), ("getUser", "getuser"), ("fooBar2", "foo_bar_2"), ("ABTest", "AbTest"), ("list", "List"), ("x", "X")]
+PAIR_CODE = r'''
+import importlib, inspect
+def main(pkg, arg):
+    import httpx, json
+    m = importlib.import_module(pkg)
+    def handler(request):
+        body = json.loads(request.content)
+        return httpx.Response(200, json={"data": {"a": 1, "b": 2}})
+    c = m.Client(url="http://x", http_client=httpx.Client(transport=httpx.MockTransport(handler)))
+    out = {}
+    for n, f in vars(m.Client).items():
+        if inspect.isfunction(f) and not n.startswith("_"):
+            try:
+                r = getattr(c, n)()
+                out[n] = sorted(k for k in ("a", "b") if hasattr(r, k))
+            except Exception as e:
+                out[n] = "EXC " + type(e).__name__ + ": " + str(e)[:100]
+    return out
+'''
+
+
+def operation_pair_problem(pi: int, snake: bool) -> str:
+    """two operations of one client whose names may map to one Python name: either both stay usable (two methods, each returning
+    its own operation's model) or generation fails with an ariadne-codegen error - never a silent merge"""
+    n1, n2 = OP_PAIRS[pi]
+    r = gen.generate({"schema": "type Query { a: Int b: Int }", "queries": f"query {n1} {{ a }}\nquery {n2} {{ b }}", "config": {"async_client": False, "convert_to_snake_case": snake}})
+    if not r["ok"]:
+        return "" if (r.get("exc_type") or "").startswith("ariadne_codegen.exceptions.") else f"generation died: {r['exc_type']}: {r['exc_msg'][:120]}"
+    ev = gen.pkg_eval({"files": r["files"], "pkg": "gcl", "code": PAIR_CODE, "extra": {}})
+    if not ev.get("ok"):
+        return f"package for operations {n1!r}, {n2!r} does not load: {ev.get('exc_type')}: {str(ev.get('exc_msg'))[:120]}"
+    res = ev["result"]
+    if sorted(map(str, res.values())) != ["['a']", "['b']"]:
+        return f"operations {n1!r} and {n2!r}: generated methods give {res}"
+    return ""
+
+
+def check_operation_pairs(pi: int, snake: bool) -> bool:
+    """
+    post: _
+    """
+    k = pick(pi, len(OP_PAIRS))
+    sn = True if snake else False
+    with NoTracing():
+        with opened_auditwall():
+            try:
+                prob = operation_pair_problem(k, sn)
+            except Exception as e:  # noqa: BLE001
+                prob = f"harness: {type(e).__name__}: {e}"
+    return not prob
+
+
 SHADOWING = {"getData", "GetData", "execute", "executeWs"}
 
 
